@@ -239,7 +239,10 @@ def render_query(case, sp=None, lang='py'):
             head += ' ' + ', '.join(item(it, case, sp, lang, n == 0) for n, it in enumerate(q['items']))
         if q['hastop'] and not top_in_head:
             clauses.append(kw('LIMIT', sp) + ' %d' % q['top'])
-        if sp.pick([False, False, True]):
+        if case.get('from_table'):
+            # input table named in the query text and resolved through the tables registry (no context input): FROM is a clause like the others
+            clauses.append(kw('FROM', sp) + ' ' + case['from_table'])
+        elif sp.pick([False, False, True]):
             head += ' ' + kw('FROM', sp) + ' a'
     if q['join'] != 'none':
         jw = {'inner': ['JOIN', 'INNER JOIN'], 'left': ['LEFT JOIN', 'LEFT OUTER JOIN'], 'strict': ['STRICT LEFT JOIN']}[q['join']]
